@@ -625,21 +625,17 @@ type c31Envelope struct {
 // the check
 // ---------------------------------------------------------------------------
 
-func TestVerifC31Rewrite(t *testing.T) { c31Run(t, "rewrite", false) }
-
-// TestVerifC31Routing drives the same workload and oracle through the proxy's
-// produce path (handleProduceRouting: parse, LFS rewrite, fan-out, re-encode)
-// and judges the bytes a TCP broker actually receives.
-func TestVerifC31Routing(t *testing.T) { c31Run(t, "routing", true) }
+// One leg, two modes over the same generator and oracle (one test binary, one link):
+// "direct" cases call rewriteProduceRecords; "routed" cases go through the proxy's
+// produce path (handleProduceRouting: parse, LFS rewrite, fan-out, re-encode) and
+// judge the bytes a TCP backend actually receives.
+func TestVerifC31Rewrite(t *testing.T) { c31Run(t, "rewrite") }
 
 const c31Rule = "PRNG produce requests (API v3-9; 1-3 topics (a topic may be listed twice) x 1-3 partitions x 0-3 batches; codecs none/gzip/snappy(raw+xerial)/lz4/zstd; 1-5 records per batch with null/empty keys and values, 1 KiB keys, hostile timestamp deltas, gapped offset deltas, duplicate headers, the flag header at any position / twice / with declared checksums; a few 5 MiB+ values; S3 chunk size lowered in some cases so that Upload takes its multipart branch; a few produce-v2 requests with magic-1 message sets that cannot carry a flag) against an S3 stand-in with real multipart semantics. Reference view (kit kbatch + own decompression) before/after: same topics/partitions/batch count/record count and order; a batch or partition without a flagged record is byte-identical; every batch header field incl. codec bits unchanged, Length frames exactly, CRC32C verifies, NumRecords == records present; unflagged records identical in every field (null vs empty distinguished); flagged records keep attributes/deltas/key, headers == original minus LFS_BLOB entries, value decodes (pkg/lfs and own JSON) to an envelope whose key is new, unique, in the configured bucket, and whose stored object bytes == original value with size, SHA-256 and declared checksum correct. non-trivial = a request that was rewritten and held at least one flagged record. "
 
-func c31Run(t *testing.T, leg string, routed bool) {
+func c31Run(t *testing.T, leg string) {
 	r := verifkit.Start(t, "C31", leg)
-	rule := c31Rule + "This leg: requests are parsed with protocol.ParseRequest and handed to the real rewriteProduceRecords; 'after' is the in-place rewritten request, which is additionally passed through the fan-out encoder (encodeProduceRequest) and read back."
-	if routed {
-		rule = c31Rule + "This leg: the wire request goes through the real (*proxy).handleProduceRouting with the LFS module enabled and one TCP backend; 'after' is the produce request that the backend received."
-	}
+	rule := c31Rule + "Direct cases: requests are parsed with protocol.ParseRequest and handed to the real rewriteProduceRecords; 'after' is the in-place rewritten request, which is additionally passed through the fan-out encoder (encodeProduceRequest) and read back. Routed cases: the wire request goes through the real (*proxy).handleProduceRouting with the LFS module enabled and one TCP backend; 'after' is the produce request that the backend received."
 	defer r.Finish(rule,
 		"a null flagged value is stored as an empty object (null and empty are both 'exactly the original value' of length 0)",
 		"'loses only its flag header' is read as: every header whose key is exactly LFS_BLOB is removed, nothing else (LFS_BLOB_ALG stays)",
@@ -649,20 +645,16 @@ func c31Run(t *testing.T, leg string, routed bool) {
 
 	logger := slog.New(slog.NewTextHandler(io.Discard, nil))
 	s3f := newVfS3(0)
-	n := r.N(800, 12000)
-	if routed {
-		n = r.N(300, 4000)
-	}
+	nDirect, nRouted := r.N(600, 8000), r.N(250, 2500)
 	if v, err := strconv.Atoi(os.Getenv("C31_DEV_N")); err == nil && v > 0 {
-		n = v // development knob only; never set by bin/check
+		nDirect, nRouted = v, v/2 // development knob only; never set by bin/check
 	}
-	var broker *vfBroker
-	if routed {
-		broker = newVfBroker(t)
-		defer broker.Close()
-	}
+	n := nDirect + nRouted
+	broker := newVfBroker(t)
+	defer broker.Close()
 	seenKeys := map[string]bool{}
 	for ci := 0; ci < n; ci++ {
+		routed := ci >= nDirect
 		rng := r.Rand(ci)
 		c := c31Gen(rng, ci)
 		if err := c31Encode(&c); err != nil {
@@ -759,7 +751,7 @@ func c31Run(t *testing.T, leg string, routed bool) {
 				raws := broker.Raws()
 				if len(raws) != 1 {
 					r.Inconclusive(fmt.Sprintf("case %d: the backend received %d requests for one produce (response %d bytes)", ci, len(raws), len(resp)))
-					r.Case(c31Sig(&c), false)
+					r.Case(c31Sig(&c)+"/routed", false)
 					continue
 				}
 				got := kmsg.NewPtrProduceRequest()
@@ -767,7 +759,7 @@ func c31Run(t *testing.T, leg string, routed bool) {
 				body := c31SkipRequestHeader(raws[0], c.Version >= 9)
 				if body == nil || got.ReadFrom(body) != nil {
 					r.Violation("forwarded_request_unreadable", "the produce request received by the backend cannot be read back with kmsg", map[string]any{"case": ci, "seed": r.Seed, "forwarded_hex": c31Hex(raws[0])})
-					r.Case(c31Sig(&c), false)
+					r.Case(c31Sig(&c)+"/routed", false)
 					continue
 				}
 				afterTopics = got.Topics
@@ -782,7 +774,7 @@ func c31Run(t *testing.T, leg string, routed bool) {
 			}
 			return out
 		}
-		sig := c31Sig(&c)
+		sig := c31Sig(&c) + map[bool]string{true: "/routed", false: "/direct"}[routed]
 		want := c.Topics
 		if routed && len(afterTopics) != len(c.Topics) {
 			// (an untouched request is forwarded verbatim; a rewritten one is re-grouped)
@@ -1090,11 +1082,8 @@ func c31Run(t *testing.T, leg string, routed bool) {
 	r.Floor("rewritten_batches_snappy_xerial_input", fl(0.02))
 	r.Floor("flagged_values_uploaded_multipart", fl(0.1))
 	r.Floor("flagged_null_values", fl(0.02))
-	if routed {
-		r.Floor("requests_received_by_backend", fl(0.4))
-	} else {
-		r.Floor("wire_roundtrips", fl(0.4))
-	}
+	r.Floor("requests_received_by_backend", int64(float64(nRouted)*0.4))
+	r.Floor("wire_roundtrips", int64(float64(nDirect)*0.4))
 }
 
 // c31SkipRequestHeader returns the body after a request header v1 (or v2 when flexible).
